@@ -141,6 +141,7 @@ type input struct {
 	vhostAddr string
 	hook1     hookSpec
 	hook2     hookSpec
+	reg       string // how the backend's ServerInfo reaches the connection: direct | plain (Proxy.Register) | via (Proxy.Register while Via routes it)
 }
 
 var connTypes = []phase.ConnectionType{phase.Undetermined, phase.Undetermined17, phase.Vanilla, phase.LegacyForge, phase.ModernForge}
@@ -157,6 +158,16 @@ func showProps(ps []profile.Property) string {
 	}
 	return strings.Join(sb, ";")
 }
+
+// namedInfo gives every registration its own name.
+type namedInfo struct {
+	proxy.ServerInfo
+	name string
+}
+
+func (n *namedInfo) Name() string { return n.name }
+
+var caseNo int
 
 var (
 	sharedCfg   = config.DefaultConfig
@@ -176,9 +187,16 @@ func runCase(run *hx.Run, class string, in input) {
 	if in.props == nil {
 		nilFlag = "1"
 	}
-	op := fmt.Sprintf("addr %s %s %s %s %s %s %s %s %s %s %s %s", in.mode, hx.HexS(in.bgSecret), hx.HexS(in.server.String()),
+	if in.reg == "" {
+		in.reg = "direct"
+	}
+	if _, _, err := net.SplitHostPort(in.server.String()); err != nil {
+		in.reg = "direct" // Proxy.Register refuses such an address
+	}
+	caseNo++
+	op := fmt.Sprintf("addr %s %s %s %s %s %s %s %s %s %s %s %s %s", in.mode, hx.HexS(in.bgSecret), hx.HexS(in.server.String()),
 		hx.HexS(in.remote.String()), hx.HexS(in.ipText), hx.Hex(in.id[:]), nilFlag, showProps(in.props),
-		connTypeNames[in.connType], hx.HexS(in.vhostAddr), in.hook1, in.hook2)
+		connTypeNames[in.connType], hx.HexS(in.vhostAddr), in.hook1, in.hook2, in.reg)
 	out := hx.Guard(20*time.Second, func() string {
 		sharedCfg.Forwarding.Mode = config.ForwardingMode(in.mode)
 		sharedCfg.Forwarding.BungeeGuardSecret = in.bgSecret
@@ -193,6 +211,23 @@ func runCase(run *hx.Run, class string, in input) {
 		var info proxy.ServerInfo = proxy.NewServerInfo("backend", in.server)
 		if in.hook1.kind != "" {
 			info = &serverInfoWithHook{ServerInfo: info, h: in.hook1}
+		}
+		if in.reg != "direct" {
+			// the real registration path: Proxy.Register stores the ServerInfo (wrapped by newViaServerInfo when
+			// Via routes the backend); the connection is then built on what the registry holds
+			regInfo := &namedInfo{ServerInfo: info, name: fmt.Sprintf("b%d", caseNo)}
+			var toRegister proxy.ServerInfo = regInfo
+			if hi, ok := info.(*serverInfoWithHook); ok {
+				toRegister = &serverInfoWithHook{ServerInfo: regInfo, h: hi.h}
+			}
+			proxy.C19SetViaRunning(sharedProxy, in.reg == "via")
+			rs, err := sharedProxy.Register(toRegister)
+			proxy.C19SetViaRunning(sharedProxy, false)
+			if err != nil {
+				return "register-failed"
+			}
+			info = rs.ServerInfo()
+			defer sharedProxy.Unregister(info)
 		}
 		playerConn := newFakeConn(763, in.remote, in.connType)
 		backend := newFakeConn(763, in.server, phase.Vanilla)
@@ -400,6 +435,7 @@ func genInput(r *hx.Rng, hostile bool) input {
 		vhostAddr: genVhostAddr(r, hostile && r.Bool()),
 		hook1:     genHook(r, false),
 		hook2:     genHook(r, true),
+		reg:       hx.Pick(r, []string{"direct", "plain", "via", "via"}),
 	}
 	if r.Chance(1, 2) { // Forge types should mostly come with Forge-looking hosts and vice versa
 		switch {
@@ -442,6 +478,15 @@ func main() {
 					props: []profile.Property{{Name: "textures", Value: "e30=", Signature: "c2ln"}}, connType: ct, vhostAddr: h + ":25565"}
 				copy(in.id[:], []byte{0x06, 0x9a, 0x79, 0xf4, 0x44, 0xe9, 0x47, 0x26, 0xa5, 0xbe, 0xfc, 0xa9, 0x0e, 0x38, 0xaa, 0xf5})
 				runCase(run, "fixed", in)
+				// the same backend reached through the registry: plain, and wrapped because Via routes it —
+				// without and with a HandshakeAddresser of its own
+				for _, reg := range []string{"plain", "via"} {
+					viaIn := in
+					viaIn.reg = reg
+					runCase(run, "fixed/"+reg, viaIn)
+					viaIn.hook1 = hookSpec{kind: "app", arg: "\x00own-hook"}
+					runCase(run, "fixed/"+reg, viaIn)
+				}
 				if mode == "none" {
 					in.hook2 = hookSpec{kind: "app", arg: "\x00floodgate"}
 					runCase(run, "fixed", in)
